@@ -134,6 +134,9 @@ class Engine:
             return False
         if isinstance(k, LibRef):
             nm = k.name
+            from . import libarraylike as AL
+            if AL.is_al(v):
+                return AL.isinstance_al(v, nm)
             if nm == 'builtins.dict':
                 return isinstance(v, RecordV) or (isinstance(v, Ref) and isinstance(run.deref(v), MapO))
             if nm == 'builtins.list':
@@ -210,6 +213,10 @@ class Engine:
             if run.branch(to_bool_term(isp)):
                 return ArmV(fresh(name, Arm))
             return st.alloc(MapO(fresh(name + '_keys', ASeq), {'': fresh(name + '_vals', RArr)}, {'': 'real'}))
+        if desc.startswith('arraylike:'):
+            v = OpaqueV(fresh(name, Opaque), desc)
+            st.assume(z3.Not(run_isnone(v.term)))
+            return v
         if desc == 'partition':
             return TupleV([Num(fresh(name + '_jobs', Int)), SeqV('I', fresh(name + '_counts', ISeq), True),
                            SeqV('I', fresh(name + '_starts', ISeq), True)])
